@@ -128,3 +128,13 @@ def random_reps(rng, n):
         for ft in FTYPES:
             cases.append(dict(kind="twin", **{"class": cls}, ftype=ft, yaml="k: %s\n" % y, lit=lit or "", preset=rng.random() < 0.5))
     return cases
+
+
+def alias_cases():
+    """a key bound by two components, the first of which writes through its bound value (generic reference-typed fields)"""
+    out = []
+    for ft, docs in (("map", ['{a: 1, b: x}', '{a: {b: [1, 2]}, c: "t"}']), ("anylist", ['[1, 2]', '["a", "b", "c"]', '[{a: 1}]']),
+                     ("any", ['{a: 1, b: x}', '[1, 2]'])):
+        for d in docs:
+            out.append(dict(kind="alias", ftype=ft, yaml="k: %s\n" % d))
+    return out
